@@ -31,7 +31,7 @@ def normalise(o):
     return n
 
 
-KEEP = ("id", "universe", "judge", "src", "dst", "final", "extra", "result", "result2", "changed2", "resent2", "opts", "rules", "wild")
+KEEP = ("id", "universe", "judge", "src", "dst", "final", "extra", "result", "result2", "changed2", "resent2", "opts", "rules", "wild", "peers")
 
 
 def slim_nodes(nodes):
@@ -44,9 +44,11 @@ def validate(w, fam, obs, label):
     tf = w.path("strace-%s-%d.ndjson" % (label, len(w.tlc_runs)))
     rows = []
     for o in obs:
+        o.setdefault("peers", [])
         r = {k: o[k] for k in KEEP}
         for k in ("src", "dst", "final"):
             r[k] = slim_nodes(o[k])
+        r["peers"] = [slim_nodes(p) for p in o["peers"]]
         rows.append(r)
     write_ndjson(tf, rows)
     r = w.tlc("MCSyncTrace", trace_cfg(fam), env={"VERIF_TRACE": tf}, label="SyncTrace-" + label, timeout=3000)
@@ -76,17 +78,39 @@ def mk_line(s, arr, judge, form="slash", rule_style="opt", repeat=False, extra_f
             "echo": {"opts": s["opts"], "rules": s.get("rules", []), "wild": wild}}
 
 
-def run_validate_confirm(w, fam, lines, label, v, counts, sigfn):
+def attach_peers(obs, lines):
+    """For lines that carry a group key: give each observation the final trees of the other
+    arrangements of the same scenario (C14)."""
+    byid = {ln["id"]: ln for ln in lines}
+    groups = {}
+    for o in obs:
+        g = byid[o["id"]].get("group")
+        if g is not None:
+            groups.setdefault(g, []).append(o)
+    for g, os_ in groups.items():
+        for o in os_:
+            o["peers"] = [p["final"] for p in os_ if p is not o and p["result"] == "ok"]
+
+
+def run_validate_confirm(w, fam, lines, label, v, counts, sigfn, peers=False):
     for i, ln in enumerate(lines):
         ln["id"] = i + 1
     obs, summ = run(w, lines, label)
+    if peers:
+        attach_peers(obs, lines)
     rej, gen, dist = validate(w, fam, obs, label)
     counts["traces"] = counts.get("traces", 0) + len(obs)
     counts["trace_states"] = counts.get("trace_states", 0) + dist
     counts["crashed"] = counts.get("crashed", 0) + summ["crashed"]
     if rej:
         byid = {ln["id"]: ln for ln in lines}
-        obs2, _ = run(w, [byid[i] for i in sorted(rej)], label + "-confirm")
+        again = [byid[i] for i in sorted(rej)]
+        if peers:       # re-run whole groups
+            gs = {byid[i].get("group") for i in rej}
+            again = [ln for ln in lines if ln.get("group") in gs]
+        obs2, _ = run(w, again, label + "-confirm")
+        if peers:
+            attach_peers(obs2, lines)
         rej2, _, _ = validate(w, fam, obs2, label + "-confirm")
         if set(rej) - set(rej2):
             raise Broken("rejections not reproduced on re-run: ids %s" % sorted(set(rej) - set(rej2))[:10])
